@@ -387,6 +387,84 @@ def state_writes(prj: Project, fi: FuncInfo):
     return out
 
 
+def _input_deps(prj, fi: FuncInfo, e, depth=0, seen=None) -> set:
+    """the inputs of fi that the value of expression e is computed from: parameter names, 'self.<attr>' for attributes of the
+    receiver, '*' when something cannot be traced.  Locals are followed through all their definitions."""
+    from ..core import local_defs
+    seen = seen if seen is not None else set()
+    if e is None or depth > 8:
+        return {"*"} if depth > 8 else set()
+    params = set(fi.params())
+    me = fi.params()[0] if fi.is_method() and not fi.is_static() and fi.params() else None
+    out = set()
+    skip = set()
+    for n in ast.walk(e):
+        if isinstance(n, ast.Attribute) and isinstance(n.value, ast.Name) and n.value.id == me and me is not None:
+            par = fi.parents.get(n)
+            if isinstance(par, ast.Call) and par.func is n:
+                out.add(f"{me}.*")          # a method of the receiver: may read any of its attributes
+            else:
+                out.add(f"{me}.{n.attr}")
+            skip.add(id(n.value))
+    for n in ast.walk(e):
+        if isinstance(n, ast.Name) and isinstance(n.ctx, ast.Load) and id(n) not in skip:
+            if n.id == me:
+                out.add(f"{me}.*")
+            elif n.id in params:
+                out.add(n.id)
+            elif (fi.qual, n.id) in seen:
+                continue
+            else:
+                defs = local_defs(fi, n.id)
+                if defs:
+                    seen.add((fi.qual, n.id))
+                    for v, st in defs:
+                        if v is None:
+                            # not a plain assignment: what the binding draws from
+                            if isinstance(st, ast.AugAssign):
+                                v = st.value
+                            elif isinstance(st, (ast.For, ast.comprehension)):
+                                v = st.iter
+                            elif isinstance(st, ast.withitem):
+                                v = st.context_expr
+                            elif isinstance(st, ast.Assign):
+                                v = st.value
+                        out |= _input_deps(prj, fi, v, depth + 1, seen) if v is not None else {"*"}
+                        # what decides whether this binding happens at all
+                        q = fi.parents.get(st)
+                        while q is not None and not isinstance(q, (ast.FunctionDef, ast.AsyncFunctionDef, ast.Lambda)):
+                            if isinstance(q, (ast.If, ast.While, ast.IfExp)):
+                                out |= _input_deps(prj, fi, q.test, depth + 1, seen)
+                            elif isinstance(q, ast.For):
+                                out |= _input_deps(prj, fi, q.iter, depth + 1, seen)
+                            q = fi.parents.get(q)
+                # module-level names (constants, functions, classes) and builtins are not inputs of the call
+    return out
+
+
+def memo_verdict(prj, fi: FuncInfo, n):
+    """a write `G[key] = value` to a module-level dictionary, read as a memo: -> ('memo', missing inputs) where missing = inputs
+    the stored value is computed from that the key is not; ('other', None) when the write is not of that form"""
+    if not isinstance(n, ast.Assign):
+        return "other", None
+    subs = [t for t in n.targets if isinstance(t, ast.Subscript)]
+    if len(subs) != 1:
+        return "other", None
+    key, val = subs[0].slice, n.value
+    kd, vd = _input_deps(prj, fi, key), _input_deps(prj, fi, val)
+    if "*" in vd and "*" not in kd:
+        return "memo", {"(something that could not be traced)"}
+    me = fi.params()[0] if fi.is_method() and not fi.is_static() and fi.params() else None
+    missing = set()
+    for d in vd:
+        if d in kd or d == "*":
+            continue
+        if me and d.startswith(me + ".") and f"{me}.*" in kd:
+            continue
+        missing.add(d)
+    return "memo", missing
+
+
 def rule_R4(ctx, prj, fns):
     ctx.rule("R4", "no function reachable from scan_file / scan_path / check_command writes module-level or class-level "
                    "state, except State._id (labels only); DEFAULT_EXCLUDES is copied before it is extended", floor=1)
@@ -398,9 +476,15 @@ def rule_R4(ctx, prj, fns):
             if (fi.qual, g0) in ALLOWED_STATE_WRITES:
                 ctx.ok("R4", fi.site(n), f"{fi.local}: writes {g0} - admitted: {ALLOWED_STATE_WRITES[(fi.qual, g0)]}")
             else:
+                kind, missing = memo_verdict(prj, fi, n)
+                if kind == "memo" and not missing:
+                    ctx.ok("R4", fi.site(n), f"{fi.local}: stores into {g0} under a key that determines the stored value (a memo: every input the value is computed from is part of the key)")
+                    continue
+                extra = (f"; read as a memo, the stored value also depends on {sorted(missing)}, which the key does not capture: a later call with another "
+                         f"value of it gets the stale entry") if kind == "memo" else ""
                 ctx.viol("R4", f"{fi.local}/writes/{g0}", fi.site(n),
                          f"`{unparse(n)[:70]}` modifies process-wide state {g} during analysis: what one file (or one scan) leaves there "
-                         f"is seen by the next, so results stop depending on language and content alone")
+                         f"is seen by the next, so results stop depending on language and content alone" + extra)
     # the admitted counter must flow nowhere but into ids
     st = prj.func("codelimit.common.gsm.automata.State:State.__init__")
     reads = [n for n in st.walk() if isinstance(n, ast.Attribute) and unparse(n) == "State._id" and isinstance(n.ctx, ast.Load)]
